@@ -36,5 +36,5 @@ for d, res in out:
     own = prop in hits
     print('%-12s own=%-5s hits=%s%s' % (d.rstrip('/').split('/')[-2] + '/' + d.rstrip('/').split('/')[-1], own, {c: v[1] for c, v in hits.items()}, (' BROKEN=' + ','.join(broken)) if broken else ''))
     summary[d] = {'property': prop, 'own': own, 'hits': {c: v[1] for c, v in hits.items()}, 'broken': broken}
-json.dump(summary, open('/tmp/matrix.json', 'w'), indent=1)
+json.dump(summary, open(os.environ.get('MATRIX_OUT', '/tmp/matrix.json'), 'w'), indent=1)
 print('own-property detections: %d / %d ; detected by any check: %d' % (sum(1 for s in summary.values() if s['own']), len(summary), sum(1 for s in summary.values() if s['hits'])))
